@@ -67,11 +67,12 @@ type pxObs struct {
 
 // scripted upstream body
 type pxBody struct {
-	data   []byte
-	cuts   []int // byte offsets at which a Read returns
-	pos    int
-	failAt int // byte offset at which the stream breaks off; -1 none
-	failE  error
+	data     []byte
+	cuts     []int // byte offsets at which a Read returns
+	pos      int
+	failAt   int // byte offset at which the stream breaks off; -1 none
+	failE    error
+	withData bool // the error is returned by the same Read as the last bytes before the break (as net/http does for a reset behind buffered data)
 }
 
 func (b *pxBody) Read(p []byte) (int, error) {
@@ -92,6 +93,9 @@ func (b *pxBody) Read(p []byte) (int, error) {
 	}
 	n := copy(p, b.data[b.pos:end])
 	b.pos += n
+	if b.withData && b.failAt >= 0 && b.pos >= b.failAt && n > 0 {
+		return n, b.failE
+	}
 	return n, nil
 }
 func (b *pxBody) Close() error { return nil }
@@ -206,9 +210,16 @@ func runProxyCase(world *sideWorld, proxyURL *url.URL, sc *pxScenario, rnd *rand
 	wire := body
 	if sc.Enc == "gzip" {
 		var zb bytes.Buffer
-		zw := gzip.NewWriter(&zb)
-		zw.Write(body)
-		zw.Close()
+		parts := [][]byte{body}
+		if rnd.Intn(4) == 0 && len(body) > 2 {
+			// a stream of several gzip members (a target that flushes member by member): the body is their concatenation
+			parts = [][]byte{body[:len(body)/3], {}, body[len(body)/3:]}
+		}
+		for _, part := range parts {
+			zw := gzip.NewWriter(&zb)
+			zw.Write(part)
+			zw.Close()
+		}
 		wire = zb.Bytes()
 	}
 	scale := func(off int) int {
@@ -231,6 +242,12 @@ func runProxyCase(world *sideWorld, proxyURL *url.URL, sc *pxScenario, rnd *rand
 	}
 	if err := world.apiPost("/api/v1/status/extra_config/", &prom.ExtraConfig{StopScrapeReason: reason}, nil); err != nil {
 		panic(err)
+	}
+	if rnd.Intn(2) == 0 {
+		// the configuration is reloaded (same content) after the administrator's setting was made: the setting stays
+		if err := world.cfgm.ReloadFromRaw([]byte(sideCfgYAML)); err != nil {
+			panic(err)
+		}
 	}
 	before := uint64(0)
 	if st := world.tm.TargetsInfo().Status[h]; st != nil {
@@ -262,6 +279,17 @@ func runProxyCase(world *sideWorld, proxyURL *url.URL, sc *pxScenario, rnd *rand
 		bodyRd.failAt, bodyRd.failE = scale(sc.Fail.Off), context.DeadlineExceeded
 	case "other":
 		bodyRd.failAt, bodyRd.failE = scale(sc.Fail.Off), errors.New("stream error: stream ID 3; INTERNAL_ERROR")
+	}
+	if bodyRd.failAt > 0 && sc.Enc == "identity" && rnd.Intn(2) == 0 {
+		// the break falls right behind a complete line, and the error comes with the last bytes
+		if i := bytes.LastIndexByte(wire[:bodyRd.failAt], '\n'); i > 0 {
+			bodyRd.failAt = i + 1
+			// an earlier read ends in the middle of a line
+			if len(bodyRd.cuts) == 0 && i > 3 {
+				bodyRd.cuts = append(bodyRd.cuts, i-2)
+			}
+		}
+		bodyRd.withData = true
 	}
 	const ctype = "text/plain; version=0.0.4; charset=utf-8; x-case=1"
 	world.cli.Transport = roundTripFunc(func(r *http.Request) (*http.Response, error) {
